@@ -19,6 +19,7 @@ const (
 	Degen    = "degen"    // valid but degenerate bars: high==low stretches, zero volume days, close==high/low
 	ZeroNeg  = "zeroneg"  // numeric only: integers in [-9,9] (zeros and negatives)
 	LimitRun = "limitrun" // limit-up/limit-down runs: close==high or close==low for stretches
+	Halt     = "halt"     // whole-number walk2 prices with long trading halts: every field of the bar repeats for 35-60 bars
 )
 
 // OHLCVClasses are the classes that yield valid OHLCV bars.
@@ -32,6 +33,24 @@ var WellCond = []string{Walk, Walk2, Spike, Dyadic}
 // <= high, prices > 0, volume >= 0. All five fields vary independently
 // (within the class) so that a wrong field is visible downstream.
 func Bars(r *Rand, class string, n int) []Bar {
+	if class == Halt {
+		// moving stretches of whole-number prices separated by halts during which
+		// nothing changes at all (differences of averages are exactly zero)
+		out := Bars(r, Walk2, n)
+		for i := range out {
+			b := &out[i]
+			b.O, b.H, b.L, b.C = math.Round(b.O), math.Round(b.H)+1, math.Max(1, math.Round(b.L)-1), math.Round(b.C)
+			b.O, b.C = math.Min(math.Max(b.O, b.L), b.H), math.Min(math.Max(b.C, b.L), b.H)
+		}
+		for i := r.Range(3, 40); i < n; {
+			run := r.Range(35, 60)
+			for k := 1; k <= run && i+k < n; k++ {
+				out[i+k] = out[i]
+			}
+			i += run + r.Range(5, 60)
+		}
+		return out
+	}
 	out := make([]Bar, n)
 	price := r.FRange(5, 500)
 	vol := r.FRange(1e3, 1e6)
